@@ -29,6 +29,9 @@ DRY = False     # not record anything (robustness of the detection)
 
 def run_seed(seed, checks, tier="quick"):
     sdir = os.path.join(HERE, "seeded", seed)
+    # a seed that only the thorough tier reaches says so in a file `tier`
+    if os.path.exists(os.path.join(sdir, "tier")):
+        tier = open(os.path.join(sdir, "tier")).read().strip()
     tmp = tempfile.mkdtemp(prefix="seedwt-")
     wt = os.path.join(tmp, "wt")
     out = tempfile.mkdtemp(prefix="seedout-")
@@ -49,7 +52,8 @@ def run_seed(seed, checks, tier="quick"):
                         os.path.join(sdir, "patch.diff")], check=True)
         for chk in checks:
             env = dict(os.environ, VERIF_REPO=wt, VERIF_OUT=out,
-                       VERIF_WATCHDOG="900", VERIF_SEED=VSEED)
+                       VERIF_WATCHDOG="900" if tier == "quick" else "3000",
+                       VERIF_SEED=VSEED)
             p = subprocess.run([os.path.join(HERE, "vcheck"), chk, tier],
                                env=env, stdout=subprocess.PIPE,
                                stderr=subprocess.STDOUT, cwd=HERE)
@@ -115,9 +119,14 @@ def main():
                              "suite unchanged (85 passed, 2 pre-existing "
                              "test_pipe failures); demo.py exits 1 with the "
                              "patch and 0 without (tools/confirm_seed.sh)",
-                "checks_run": "tools/seedmatrix.py: ./vcheck <id> quick "
+                "checks_run": "tools/seedmatrix.py: ./vcheck <id> %s "
                               "with VERIF_REPO=<scratch worktree with the "
-                              "patch applied>",
+                              "patch applied>" % (
+                                  open(os.path.join(HERE, "seeded", seed,
+                                                    "tier")).read().strip()
+                                  if os.path.exists(os.path.join(
+                                      HERE, "seeded", seed, "tier"))
+                                  else "quick"),
                 "caught_by": sorted(caught),
                 "violation_kinds": {c: r["kinds"] for c, r in
                                     results[seed].items() if r["kinds"]},
